@@ -196,9 +196,10 @@ def replay(ctx, path):
 
 META = {
     "category": "proof",
-    "technique": "Coq proof of the TDVP kernel schedule (all N>=3, all step lists) over a state-machine model + exact trace correspondence; dense-reference falsifier",
+    "technique": "Coq proof of the TDVP kernel schedule (all N>=2, all step lists) over a state-machine model + exact trace correspondence; dense-reference falsifier",
     "text": ("Proved for every N>=3, every target-time list and every oracle stream: a TDVP run performs exactly "
-             "#intervals*(2N-3) progress() calls without any assertion/bath-stack failure; its complete trace of kernel "
+             "#intervals*(2N-3) progress() calls (N=2 corner case: one pair evolution per interval, proved separately; "
+             "N<2 is refused by the constructor) without any assertion/bath-stack failure; its complete trace of kernel "
              "calls and side effects equals a closed form; results are filled once per step, in order, at the step's "
              "end time; row k+1 of the drives is installed for step k+1; the kernel sequence of a step is a palindrome "
              "(symmetric second-order splitting). The machine model is tied to mps_backend_impl.py by an exact "
